@@ -156,7 +156,12 @@ def run_case(case):
             try:
                 fr.processIncomingPacket(r, lambda m: None, [UID], single=False)
             except Exception:
-                fr.resetFrame()
+                try:
+                    fr.resetFrame()
+                except Exception as e2:
+                    # the recovery action of every handler itself fails: the receiver stays poisoned
+                    discs.append(Disc('reset-raises', '%s: resetFrame() raised %s: %s with %d bytes buffered' % (framing, type(e2).__name__, e2, len(fr._buffer))))
+                    break
             fed += len(r)
             # "stays bounded while valid frames keep arriving": judged once a recovery window of valid traffic has arrived
             if fed >= e + L and len(fr._buffer) > L + len(r):
